@@ -51,6 +51,9 @@ func init() {
 			return Tuple{t[0], Ptr(nil), hs, t[1]}
 		})
 	}
+	intrinsics[wsp+"WriteFrame"] = func(m *Machine, g *G, fr *Frame, in ssa.Instruction, args []Value) {
+		m.callHarness(g, fr, in, "verifWsWriteFrame", []Value{args[0]}, nil)
+	}
 	R(wsp+"NewCloseFrameBody", func(m *Machine, a []Value) Value { return bytesVal([]byte("close-body")) })
 	R(wsp+"NewCloseFrame", func(m *Machine, a []Value) Value { return zero(m.namedType("github.com/gobwas/ws", "Frame")) })
 	intrinsics[wsp+"WriteHeader"] = func(m *Machine, g *G, fr *Frame, in ssa.Instruction, args []Value) {
